@@ -104,13 +104,33 @@ def generate(seed, tier):
                             if tg[0] in ('name', 'range')],
                            key=lambda tg: tg[0] != 'name')[:1] \
                 if orng.chance(.6) else []
+            prev = [o for o in objs if o['kind'] == 'compile' and
+                    o['targets'] and o['inputs']]
+            if prev and orng.chance(.5):
+                # a sibling: the same model compiled again for the same name
+                # / range, now WITHOUT the constant cells that were inputs of
+                # the first function (their stored values count again)
+                p0 = orng.pick(prev)
+                objs.append({'kind': 'compile', 'src': p0['src'],
+                             'after': objs.index(p0),
+                             'targets': copy.deepcopy(p0['targets']),
+                             'inputs': [] if orng.chance(.7) else
+                             p0['inputs'][:1],
+                             'outputs': list(p0['outputs'])})
+                continue
+            outs_ = sorted(orng.sample(formulas_, orng.randrange(
+                1, min(3, len(formulas_)) + 1)))
+            # mostly constants that the outputs really depend on
+            from ..cyc import Graph
+            G_ = Graph(world)
+            used = sorted(set(consts) & set().union(
+                *[G_.reach(o) for o in outs_]))
+            pool = used if used and orng.chance(.7) else consts
             objs.append({'kind': 'compile', 'src': orng.pick(srcs),
                          'targets': extra,
-                         'inputs': sorted(orng.sample(consts, orng.randrange(
-                             1, min(2, len(consts)) + 1))),
-                         'outputs': sorted(orng.sample(
-                             formulas_, orng.randrange(
-                                 1, min(3, len(formulas_)) + 1)))})
+                         'inputs': sorted(orng.sample(pool, orng.randrange(
+                             1, min(2, len(pool)) + 1))),
+                         'outputs': outs_})
         else:
             if k == 'dill':
                 if n_dill >= t['max_dill']:
@@ -128,7 +148,7 @@ def generate(seed, tier):
         j = orng.pick(sorted(remaining))
         if j not in made:
             src = objs[j]['src']
-            if src not in made:
+            if src not in made or objs[j].get('after', src) not in made:
                 continue
             steps.append({'do': 'make', 'obj': j})
             made.add(j)
